@@ -294,8 +294,40 @@ type Gen struct {
 	uid     int
 }
 
+// commentLine draws one comment payload from a small grammar of keywords the comment
+// analysing checkers look for, in seeded casings, separators and tails.
+func (g *Gen) commentLine() string {
+	type fam struct{ lead, kws, seps, tails []string }
+	fams := []fam{
+		{[]string{" ", "", "  "},
+			[]string{"Deprecated", "DEPRECATED", "deprecated", "DeprecaTed", "Deprecate", "Depricated", "Dprecated", "This is deprecated", "NOTE: deprecated", "Deprecated, "},
+			[]string{":", ": ", "", " ", ".", ", ", " - "}, []string{"", "x", "use X", " ", ".", "use X instead."}},
+		{[]string{" ", "", "\t"},
+			[]string{"TODO", "todo", "FIXME", "Todo", "TODO()", "TODO(x)", "BUG", "NOTE", "XXX"},
+			[]string{":", ": ", "", " ", "(x): ", "(): ", ";"}, []string{"", "x", " ", ".", "fix me", "é"}},
+		{[]string{"", " ", "  "},
+			[]string{"nolint", "NOLINT", "nolint:gocritic", "nolint:all", "nolint:", "lint:ignore", "nolint:a,b", "#nosec", "nolint :x"},
+			[]string{"", " ", " // ", "//", " //", ":"}, []string{"", "x", "reason", " ", "gocritic", "gocritic // reason", "// y"}},
+		{[]string{" ", ""},
+			[]string{"Code generated", "code generated", "Code generated by x.", "This file was generated", "Generated by", "AUTOGENERATED", "DO NOT EDIT"},
+			[]string{" ", "", ". ", ": "}, []string{"", "DO NOT EDIT.", "by x. DO NOT EDIT.", "do not edit", "DO NOT EDIT", "x"}},
+		{[]string{" ", "", "\t"},
+			[]string{"fi()", "x := 1", "return", "return nil, err", "if x {", "}", "import", "for i := 0; i < 3; i++ {", "x = append(x, 1)", "var x int", "func f() {}", "a.b.c()", "x++", "go f()", "defer f()", "switch x {", "case 1:", "f(", ")", "x, y = y, x"},
+			[]string{"", " ", ";", " // "}, []string{"", "x", " }", "fi()", "\"fmt\"", "+ 1", "{"}},
+		{[]string{" ", "", "!", "#", "/", "-", "  ", "\t"},
+			[]string{"go:generate", "+build", "export", "line", "http://x", "é", "%s", "*", "=", "-----", "  indented", "a", "A sentence.", "go:build x", "lint:file-ignore"},
+			[]string{"", " ", ":"}, []string{"", "x", "%!s(", "<nil>", "/* z */", "é"}},
+	}
+	f := fams[g.Rng.Intn(len(fams))]
+	pick := func(xs []string) string { return xs[g.Rng.Intn(len(xs))] }
+	return pick(f.lead) + pick(f.kws) + pick(f.seps) + pick(f.tails)
+}
+
 func (g *Gen) fill(src string) string {
 	return holeRE.ReplaceAllStringFunc(src, func(h string) string {
+		if h == "«c»" {
+			return g.commentLine()
+		}
 		p := pools[h[len("«"):len(h)-len("»")]]
 		if p == nil {
 			return h
@@ -457,6 +489,39 @@ func (g *Gen) Emit(dir, pkgName string, b Binding, snips []*Snippet, theme strin
 		os.WriteFile(filepath.Join(dir, "doc_gen.go"), []byte("// Package "+pkgName+" ...\n\n/* block */\n\n// trailing\npackage "+pkgName+"\n\n// after\n"), 0o644)
 	case 2:
 		os.WriteFile(filepath.Join(dir, "imp_gen.go"), []byte("package "+pkgName+"\n\nimport (\n\t_ \"embed\"\n\t_ \"unsafe\"\n)\n\nimport ()\n"), 0o644)
+	}
+	// an import-less file whose locals, params, results and fields are spelled like the
+	// imports of its sibling file (state kept per file by a long-lived context must not leak)
+	if g.Rng.Intn(3) != 0 {
+		var nb strings.Builder
+		fmt.Fprintf(&nb, "package %s\n\nfunc noimp%d(", pkgName, g.uid)
+		names := append([]string(nil), StdNames...)
+		for a := range imports {
+			if a != "" && a[0] != '.' && a[0] != '_' && !strings.Contains(a, "/") {
+				names = append(names, a)
+			}
+		}
+		sort.Strings(names)
+		uniq := names[:0]
+		for i, n := range names {
+			if i == 0 || names[i-1] != n {
+				uniq = append(uniq, n)
+			}
+		}
+		half := len(uniq) / 2
+		for i, n := range uniq[:half] {
+			if i > 0 {
+				nb.WriteString(", ")
+			}
+			nb.WriteString(n)
+		}
+		nb.WriteString(" int) int {\n")
+		for _, n := range uniq[half:] {
+			fmt.Fprintf(&nb, "\t%s := 1\n\t_ = %s\n", n, n)
+		}
+		fmt.Fprintf(&nb, "\treturn %s\n}\n", uniq[0])
+		os.WriteFile(filepath.Join(dir, "noimp_gen.go"), []byte(nb.String()), 0o644)
+		classSet["importless-sibling"] = true
 	}
 	for c := range classSet {
 		spec.Classes = append(spec.Classes, c)
